@@ -23,13 +23,14 @@ BUDGET = {"quick": 20, "thorough": 240}
 FLOOR = {"quick": 60, "thorough": 120}
 RULE = ("flat objects of 1-6 pairs, keys/values non-empty strings over letters, digits, space, tab, CR, LF, "
         "double/single quote, backslash, '=', ',', ':', ';', '|', '#', the active delimiters, Unicode letters, "
-        "Unicode spaces, emoji; x {default delimiters, 9x10 explicit delimiter pairs incl. multi-character} "
+        "Unicode spaces, emoji; x {default delimiters, 7x9 explicit delimiter pairs incl. multi-character} "
         "x whitespace mode (from metadata) x accept_standalone_key x fields_ordering; logfmt likewise; CSV "
         "lists of 0-6 strings (also empty strings, rarely non-UTF-8 bytes) x delimiter. Non-trivial: some "
         "key/value contains a character outside [A-Za-z0-9_] (needs quoting or escaping); distinct by "
         "(format, option shape, special-character classes in keys, in values).")
 ASSUMPTIONS = ["'matching delimiters' := the same non-empty key_value_delimiter / field_delimiter strings passed "
-               "to encoder and parser, distinct, neither containing the other, without quotes or backslashes",
+               "to encoder and parser, distinct, neither containing the other, without quotes or backslashes, "
+               "without white space except the one-character field delimiters space / tab / newline",
                "the empty object is not judged (the statement's objects have at least one pair)",
                "string := UTF-8 text for key-value/logfmt (the encoder is documented to work on strings); CSV "
                "fields may be arbitrary bytes"]
@@ -383,6 +384,15 @@ def shrink_object_item(ctx, fmt, item):
         if still_fails(ctx, fmt, [it2]) is not None:
             item = it2
     if len(o) > 1:
+        # plain keys named in encoding order (so that fields_ordering can be dropped)
+        order = [k for k in (item.get("ord") or []) if k in o]
+        order += [k for k in sorted(o, key=lambda x: x.encode("utf-8")) if k not in order]
+        o2 = {"k%d" % n: o[k] for n, k in enumerate(order)}
+        it2 = dict(item, o=enc(o2))
+        if it2.get("ord") is not None:
+            it2["ord"] = []
+        if still_fails(ctx, fmt, [it2]) is not None:
+            item, o = it2, o2
         # make every key / value plain that can be
         for n, k in enumerate(list(o)):
             o2 = {("k%d" % n if kk == k else kk): vv for kk, vv in o.items()}
@@ -400,6 +410,16 @@ def shrink_object_item(ctx, fmt, item):
                     o3[k] = sv.encode("utf-8")
                     return with_obj(item, o3)
                 o[k] = shrink_string(ctx, fmt, mk, o[k].decode("utf-8")).encode("utf-8")
+        for k in list(o):
+            if not (k.startswith("k") and k[1:].isdigit()):
+                def mk2(sk, k=k):
+                    if sk in o:
+                        return with_obj(item, {"k": b"v"})       # would collide: a candidate that holds
+                    o3 = {(sk if kk == k else kk): vv for kk, vv in o.items()}
+                    return with_obj(item, o3)
+                k2 = shrink_string(ctx, fmt, mk2, k)
+                if k2 != k and k2 not in o:
+                    o = {(k2 if kk == k else kk): vv for kk, vv in o.items()}
         return with_obj(item, o), "multi"
     (k, v), = o.items()
     # 2. which side?
@@ -516,21 +536,24 @@ def report(ctx, fmt, item, outcome):
             m, opts = generalize_kv(ctx, m)
         o = dec(m["o"])
         delims = item_delims(fmt, m)
-        if role == "multi":
-            kc, vc = set(), set()
-            for k, v in o.items():
-                kc |= classes(k, delims)
-                vc |= classes(v, delims)
-            sig = "%s:multi-pair:keys(%s),values(%s)" % (fmt, cls_text(kc), cls_text(vc))
-        else:
+        special = [("key", classes(k, delims)) for k in o] + [("value", classes(v, delims)) for v in o.values()]
+        special = [(r, c) for r, c in special if c]
+        if len(o) == 1 and role in ("key", "value"):
             (k, v), = o.items()
-            if role == "value":
-                sig = "%s:value-contains:%s" % (fmt, cls_text(classes(v, delims)))
-            elif role == "key":
-                sig = "%s:key-contains:%s" % (fmt, cls_text(classes(k, delims)))
-            else:
-                sig = "%s:pair-contains:key(%s),value(%s)" % (fmt, cls_text(classes(k, delims)),
-                                                             cls_text(classes(v, delims)))
+            sig = "%s:%s-contains:%s" % (fmt, role, cls_text(classes(v if role == "value" else k, delims)))
+        elif len(special) == 1:
+            # one special string, but the failure needs a second (plain) pair next to it
+            sig = "%s:%s-contains:%s:in_multi_pair" % (fmt, special[0][0], cls_text(special[0][1]))
+        elif not special:
+            sig = "%s:plain_pairs" % fmt
+        else:
+            union = set()
+            for _, c in special:
+                union |= c
+            # several special strings interact: name the most notable class only (the full set is in
+            # the witness), so that variants of one defect share a signature
+            primary = next((x for x in PRIORITY if x in union), None) or cls_text(union)
+            sig = "%s:several-contain:%s" % (fmt, primary)
     if "custom_delimiters" in opts and "delimiter" in sig:
         opts.remove("custom_delimiters")     # already said by the character class
     suffix = ":only_with:" + ",".join(opts) if opts else ""
